@@ -14,7 +14,9 @@ def gen_cases(ctx):
     cases = srv.load_corpus(ctx, 'C01')
     cases += srv.boundary_cases('tcp') + srv.boundary_cases('rtu')
     cases += srv.length_cases(r) + srv.all_fc_cases()
-    n = 900 if ctx.quick() else 12000
+    if not ctx.quick():
+        cases += srv.fc_length_sweep(r)
+    n = 2200 if ctx.quick() else 12000
     for _ in range(n):
         link = 'tcp' if r.random() < 0.6 else 'rtu'
         auth = srv.gen_auth(r) if r.random() < 0.1 else None
@@ -38,12 +40,7 @@ def rtu_unknown_function(ctx):
 
 
 def run(ctx):
-    ctx.translate(['Consts.v', 'AuthzTable.v'])
-    models_ok = ctx.build_models(srv.MODULES)
-    ctx.prove()
-    if ctx.tier == 'thorough':
-        ctx.coqchk()
-    if not ctx.build_harness() or not models_ok:
+    if not srv.prepare(ctx):
         return
     if ctx.replay and 'cases' in ctx.replay:
         cases = [srv.case_from_json(c) for c in ctx.replay['cases']]
@@ -52,8 +49,7 @@ def run(ctx):
     impl, both, n_spec, n_model = srv.compare(ctx, cases, 'replies', 'server', 'reply bytes')
     for link in ('tcp', 'rtu'):
         idx = [k for k, c in enumerate(cases) if c[0] == link]
-        bad = [k for k in idx if srv.observe(impl[k], 'replies') != srv.observe(both[k][1], 'replies')
-               or srv.observe(impl[k], 'replies') != srv.observe(both[k][0], 'replies')]
+        bad = [k for k in idx if srv.differs(impl[k], both[k], 'replies')]
         ctx.oblige(f'correspondence:reply-bytes:{link}', not bad, f'{len(bad)} of {len(idx)} sessions differ')
     ended = [k for k, i in enumerate(impl) if not i.endswith('|open')]
     ctx.oblige('no-session-ended-on-a-well-framed-request', not ended, f'{len(ended)} sessions ended; first: {srv.to_line(cases[ended[0]])[:300] if ended else ""}')
